@@ -138,4 +138,61 @@ theorem movePerm_single (n s d : Nat) (hs : s < n) : movePerm n [s] [d] = rollPe
     List.foldl_cons, List.foldl_nil]
   rw [filter_not_contains_single n s hs]
 
+/-! ### moveaxis with any number of axes -/
+
+theorem isPerm_of_perm {n : Nat} {p : List Nat} (h : p.Perm (List.range n)) : IsPerm n p :=
+  ⟨by simpa using h.length_eq, h.nodup_iff.2 List.nodup_range, fun m hm => List.mem_range.1 (h.mem_iff.1 hm)⟩
+
+theorem pyInsert_perm (l : List Nat) (i x : Nat) : (pyInsert l i x).Perm (x :: l) :=
+  List.perm_insertIdx x l (Nat.min_le_right _ _)
+
+theorem foldl_pyInsert_perm : ∀ (ps : List (Nat × Nat)) (init : List Nat),
+    (ps.foldl (fun o p => pyInsert o p.1 p.2) init).Perm (ps.map (·.2) ++ init)
+  | [], init => by simp
+  | p :: ps, init => by
+    simp only [List.foldl_cons, List.map_cons]
+    refine (foldl_pyInsert_perm ps _).trans ?_
+    exact ((pyInsert_perm init p.1 p.2).append_left _).trans List.perm_middle
+
+theorem insPair_perm (p : Nat × Nat) : ∀ l : List (Nat × Nat), (insPair p l).Perm (p :: l)
+  | [] => by simp [insPair]
+  | q :: qs => by
+    unfold insPair
+    split
+    · exact List.Perm.refl _
+    · exact ((insPair_perm p qs).cons q).trans (List.Perm.swap p q qs)
+
+theorem sortPairs_perm : ∀ l : List (Nat × Nat), (sortPairs l).Perm l
+  | [] => by simp [sortPairs]
+  | p :: ps => by
+    show (insPair p (sortPairs ps)).Perm (p :: ps)
+    exact (insPair_perm p _).trans ((sortPairs_perm ps).cons p)
+
+theorem hasDup_false_nodup : ∀ l : List Nat, hasDup l = false → l.Nodup
+  | [], _ => List.nodup_nil
+  | x :: xs, h => by
+    simp only [hasDup, Bool.or_eq_false_iff] at h
+    refine List.nodup_cons.2 ⟨?_, hasDup_false_nodup xs h.2⟩
+    intro hx
+    have := h.1
+    simp [hx] at this
+
+/-- the axis order `numpy.moveaxis` builds for ANY number of source axes is a permutation of the axes
+    (every axis exactly once), for every rank: nothing is lost or duplicated -/
+theorem movePerm_isPerm {n : Nat} {src dst : List Nat} (hnd : src.Nodup) (hlt : ∀ x ∈ src, x < n)
+    (hlen : dst.length = src.length) : IsPerm n (movePerm n src dst) := by
+  apply isPerm_of_perm
+  unfold movePerm
+  refine (foldl_pyInsert_perm _ _).trans ?_
+  have h1 : ((sortPairs (dst.zip src)).map (·.2)).Perm src := by
+    refine ((sortPairs_perm _).map _).trans ?_
+    rw [List.map_snd_zip (by omega)]
+  have h2 : src.Perm ((List.range n).filter fun m => src.contains m) := by
+    rw [List.perm_ext_iff_of_nodup hnd (List.nodup_range.filter _)]
+    intro a
+    simp only [List.mem_filter, List.mem_range, List.contains_iff_mem]
+    exact ⟨fun h => ⟨hlt a h, h⟩, fun h => h.2⟩
+  refine ((h1.trans h2).append_right _).trans ?_
+  exact List.filter_append_perm _ _
+
 end PMV.NpShape
